@@ -59,6 +59,10 @@ func nextFloatArgument(cmd string, name string, args Arguments) (float64, error)
 	if err != nil {
 		return 0, newMissingArgumentError(cmd, name, err)
 	}
+	if math.IsNaN(score) {
+		// "nan" parses as a float but is not a valid score or increment.
+		return 0, newInvalidArgumentError(cmd, name, errors.New("not a valid float"))
+	}
 	return score, nil
 }
 
@@ -277,6 +281,9 @@ func nextRangeScoreIndexArgument(cmd string, name string, args Arguments) (float
 	rng, err := strconv.ParseFloat(str[offset:], 64)
 	if err != nil {
 		return 0, false, newInvalidArgumentError(cmd, name, err)
+	}
+	if math.IsNaN(rng) {
+		return 0, false, newInvalidArgumentError(cmd, name, errors.New("not a valid float"))
 	}
 	return rng, exclusive, nil
 }
